@@ -482,18 +482,8 @@ func (w *World) runQuiescent() {
 }
 
 func (w *World) threadCrashed(t *Thread) {
-	msg := show(t.result)
-	if iv, ok := t.result.(Iface); ok && iv.t != nil {
-		if s, ok := iv.v.(Struct); ok && len(s) == 1 {
-			if str, ok := s[0].(string); ok {
-				msg = str
-			}
-		} else if str, ok := iv.v.(string); ok {
-			msg = str
-		} else {
-			msg = w.errorString(iv)
-		}
-	}
+	msg := w.panicMessage(t.result)
+	w.log = append(w.log, "panic at "+w.lastPanicLoc)
 	label := "panic: " + msg
 	w.reportViolation("panic", label, "")
 	panic(pathEnd{kind: "violation", msg: label})
